@@ -65,7 +65,7 @@ func stateInv(k keeperT, ctx sdk.Context, step string, provs []sdk.AccAddress, o
 // sceneSkeleton: a history from an empty module state: define, bind, call, end of block (batch 1),
 // one of {good response, malformed response, nothing, pause, kill}, end of the expiry block, withdrawal.
 // Every argument is symbolic; the global invariants are asserted after every step.
-func sceneSkeleton() {
+func sceneSkeleton(nProv int) {
 	k, ctx := vf.Env()
 	H0 := vf.Int64("H0")
 	vf.Assume(vf.And(H0 >= 1, H0 < maxH))
@@ -74,6 +74,8 @@ func sceneSkeleton() {
 	h := service.NewHandler(k)
 	author, owner, prov, consumer := vf.Addr("author", 20), vf.Addr("owner", 20), vf.Addr("prov", 20), vf.Addr("consumer", 20)
 	distinct(owner, consumer)
+	prov2 := vf.Addr("prov2", 20)
+	distinct(prov, prov2)
 	balO, balC := vf.Amount("balOwner"), vf.Amount("balConsumer")
 	vf.SetBalance(owner, balO)
 	vf.SetBalance(consumer, balC)
@@ -82,6 +84,9 @@ func sceneSkeleton() {
 	vf.SetModuleBalance("fee_collector", sdk.ZeroInt())
 	vf.SetSupply(vf.Amount("supplyRest").Add(balO).Add(balC))
 	provs := []sdk.AccAddress{prov}
+	if nProv == 2 {
+		provs = []sdk.AccAddress{prov, prov2}
+	}
 
 	// 1. define, 2. bind
 	_, err, p := vf.Deliver(ctx, h, types.NewMsgDefineService(Svc, "", nil, author, "", Schemas))
@@ -93,9 +98,18 @@ func sceneSkeleton() {
 	_, err, p = vf.Deliver(ctx, h, bind)
 	chk("C20", !p, "bind-no-panic")
 	vf.Assume(vf.And(err == nil, !p))
+	dep2 := sdk.ZeroInt()
+	if nProv == 2 {
+		dep2 = vf.Amount("deposit2")
+		vf.Assume(dep2.IsPositive())
+		bind2 := types.NewMsgBindService(Svc, prov2, coins(dep2), vf.PricingText("pricing2", 0, 0), vf.Uint64("qos2"), "{}", owner)
+		vf.Assume(bind2.ValidateBasic() == nil)
+		_, err, p = vf.Deliver(ctx, h, bind2)
+		vf.Assume(vf.And(err == nil, !p))
+	}
 	id := types.GenerateRequestContextID(vf.Bytes("txhash", 32), 0)
 	stateInv(k, ctx, "after-bind", provs, owner, id, H0)
-	chk("C03 C05", vf.Balance(owner).Equal(balO.Sub(dep)), "owner-debited-the-deposit")
+	chk("C03 C05", vf.Balance(owner).Equal(balO.Sub(dep).Sub(dep2)), "owner-debited-the-deposit")
 
 	// 3. call
 	timeout := vf.Int64("timeout")
